@@ -683,7 +683,10 @@ _PAIR_RE = re.compile(r"\('([^']+)', '([^']+)'\)")
 def _new_id(nd: Dev, channel_id: str) -> str:
     if channel_id in nd.chan_ids:
         return f"c{nd.chan_ids.index(channel_id)}"
-    return "d" + channel_id.split("_")[1]      # dmm_<j> or the name dmm_<j>_<k> of a declared DMM channel
+    parts = channel_id.split("_")
+    if parts[0] == "dmm" and len(parts) > 1:
+        return "d" + parts[1]                  # dmm_<j> or the name dmm_<j>_<k> of a declared DMM channel
+    return "?" + channel_id                    # not a channel of the new device
 
 
 def model_matching(rs: RealSeq, nd: Dev, strict: bool):
@@ -796,12 +799,17 @@ def check_device_switch(rs: RealSeq, new_spec: dict, strict: bool, edits: list, 
             if d:
                 res.fails.append(F("model-matching", d, strict=strict))
         return res
-    if MODEL is not None and not same_device:
+    if MODEL is not None and not same_device and new is not seq:
         d = compare_matching(rs, nd, strict, new, None)
         if d:
             res.fails.append(F("model-matching", d, strict=strict))
     res.status = "ok"
     res.nontrivial = not same_device
+    if new is seq and not same_device:
+        # the "same device" shortcut taken for a device built from another spec: nothing was replayed
+        res.fails.append(F("replay-device", "switch_device returned the original sequence although the new device "
+                           "differs from the original's", strict=strict, param=param_key(edits)))
+        return res
     # the parameter difference that matters is the one between each declared channel's old and new
     # device channel (the search may have matched another channel than the edited one)
     mdiffs = matched_diffs(rs.dev, seq, nd, new)
